@@ -50,4 +50,13 @@ example : forget (Gen.CodeImp.getMatrixCardSize.run [2, 8, 10] []) = some 160 :=
 #print axioms C18_translated_get_number_at
 #print axioms C18_translated_card_size
 
+
+/-- the parameter, return and field types are the ones the hypotheses of the C18 translation theorems spell out (u8 geometry, u64 seed);
+    the field SLOTS are fixed by name in the translator (`digit_count`, `width`, `height`, `data`), whatever the declaration order -/
+theorem C18_translated_signatures :
+    Gen.CodeImp.signaturesCard = ["generate_coordinates: (u8, u8, u8, u64) -> Vec<u8>", "get_number_at_coordinates: (&self, u8, u8) -> &[u8]",
+      "get_matrix_card_size: (u8, u8, u8) -> usize", "MatrixCard: digit_count:u8, width:u8, height:u8, data:arr"] := by decide +kernel
+
+#print axioms C18_translated_signatures
+
 end WowSrp
